@@ -139,6 +139,40 @@ def copy_opts(o):
     return {k: (list(v) if isinstance(v, list) else v) for k, v in o.items()}
 
 
+# -- operations that empty their target: behaviour decided by the effective norm_self / norm_get / set_norm ---------
+
+def _e_del_empty(F, o, st, chk):
+    f = F('del a, b')
+    g = f.get_slice(0, 2, cut=True, **o)
+    chk.api('get_slice')
+    return g.src + '\x00' + f.src
+
+
+def _e_body_empty(F, o, st, chk):
+    f = F('if a:\n    b\n    c\n')
+    g = f.get_slice(0, 2, 'body', cut=True, **o)
+    chk.api('get_slice')
+    return g.src + '\x00' + f.src
+
+
+def _e_matchor_empty(F, o, st, chk):
+    f = F('match x:\n  case a | b: pass')
+    g = f.a.cases[0].pattern.f.get_slice(0, 2, cut=True, **o)
+    chk.api('get_slice')
+    return g.src + '\x00' + f.src
+
+
+def _e_matchor_one(F, o, st, chk):
+    f = F('match x:\n  case a | b: pass')
+    g = f.a.cases[0].pattern.f.get_slice(0, 1, cut=True, **o)
+    chk.api('get_slice')
+    return g.src + '\x00' + f.src
+
+
+NORM_EDITS = [_e_set_del, _e_set_get, _e_del_empty, _e_body_empty, _e_matchor_empty, _e_matchor_one]
+PARS_EDITS = [_e_copy_par, _e_replace_binop, _e_replace_par, _e_walrus, _e_arglike]
+
+
 # -- edits that consume the `op` / `op_side` options (Compare slices need an extra operator) -------------------------
 
 def _e_cmp_ins(F, o, st, chk):
@@ -239,7 +273,10 @@ def _e_persist(F, o, st, chk):
 
 
 EDITS = [_e_copy_par, _e_replace_binop, _e_replace_par, _e_walrus, _e_arglike, _e_cut_stmt, _e_set_del, _e_set_get,
-         _e_pep8, _e_elif, _e_docstr, *CMP_EDITS, *_UNPAR, _e_persist]
+         _e_pep8, _e_elif, _e_docstr, _e_del_empty, _e_body_empty, _e_matchor_empty, _e_matchor_one,
+         *CMP_EDITS, *_UNPAR, _e_persist]
+NORM_IDS = [EDITS.index(e) for e in NORM_EDITS]
+PARS_IDS = [EDITS.index(e) for e in PARS_EDITS]
 CMP_IDS = [EDITS.index(e) for e in CMP_EDITS]
 EDIT_NAMES = [f.__name__[3:] for f in EDITS]
 PERSIST = EDITS.index(_e_persist)
